@@ -5,6 +5,7 @@ package main
 import (
 	"fmt"
 	"go/ast"
+	"go/constant"
 	"go/token"
 	"go/types"
 	"sort"
@@ -826,4 +827,350 @@ func (c *Ctx) isFailingHelper(name string, depth int) bool {
 		return true
 	})
 	return ok && n > 0
+}
+
+// ruleLocalIndex: an index or slice expression on a local slice/string
+// variable must be in range by construction: the index is the induction
+// variable of a loop over that same variable, or a constant / len(x)-k offset
+// covered by a dominating guard on len(x).
+func ruleLocalIndex(c *Ctx, r *Report, rule string, reach map[*ssa.Function]bool) {
+	r.rule(rule, 3, "every x[i] / x[a:b] on a local slice, string or array-backed variable is in range on every path: i is the induction variable of a loop bounded by len(x), or a constant / len(x)-k offset dominated by a guard that bounds len(x) from below (the guard's failing branch returns an error instead)")
+	seenBody := map[ast.Node]bool{}
+	for _, f := range sortedReach(reach) {
+		if f.Parent() != nil {
+			continue // closures are visited with their parent
+		}
+		body := c.bodyOf(f)
+		if body == nil || seenBody[body] {
+			continue
+		}
+		seenBody[body] = true
+		fname := ssaFuncName(f)
+		pm := parentMap(body)
+		count := map[string]int{}
+		ast.Inspect(body, func(n ast.Node) bool {
+			var x ast.Expr
+			var idxs []ast.Expr // index, or slice bounds
+			isSlice := false
+			switch e := n.(type) {
+			case *ast.IndexExpr:
+				x, idxs = e.X, []ast.Expr{e.Index}
+			case *ast.SliceExpr:
+				x, idxs, isSlice = e.X, []ast.Expr{e.Low, e.High}, true
+			default:
+				return true
+			}
+			id, ok := stripParens(x).(*ast.Ident)
+			if !ok {
+				return true
+			}
+			v, ok := c.objOf(id).(*types.Var)
+			if !ok || v.IsField() || v.Parent() == v.Pkg().Scope() || c.isParam(body, pm, n, v) {
+				return true // parameters: the bound is the callers' obligation (u16ToBytes(code[off:]) is E-ISA's)
+			}
+			switch u := v.Type().Underlying().(type) {
+			case *types.Slice:
+			case *types.Basic:
+				if u.Info()&types.IsString == 0 {
+					return true
+				}
+			default:
+				return true
+			}
+			// a store target `x[i] = v` on a map is not an index; maps were excluded by type above
+			for _, ix := range idxs {
+				if ix == nil {
+					continue
+				}
+				need, how, ok := c.indexNeed(body, pm, n, v, ix, isSlice)
+				key := fmt.Sprintf("%s/%s[%s]", fname, v.Name(), types.ExprString(ix))
+				if isSlice {
+					key = fmt.Sprintf("%s/%s[%s:]", fname, v.Name(), types.ExprString(ix))
+					if ix == idxs[1] {
+						key = fmt.Sprintf("%s/%s[:%s]", fname, v.Name(), types.ExprString(ix))
+					}
+				}
+				count[key]++
+				if count[key] > 1 {
+					key = fmt.Sprintf("%s#%d", key, count[key])
+				}
+				switch {
+				case !ok:
+					r.bad(rule, key, fmt.Sprintf("the index %s of %s is neither a loop variable bounded by len(%s) nor a constant / len(%s)-k offset: it cannot be shown in range", types.ExprString(ix), v.Name(), v.Name(), v.Name()), c.pos(n.Pos()))
+				case need <= 0:
+					r.ok(rule, key, how)
+				default:
+					if g := c.lenGuard(body, n, v, need); g != "" {
+						r.ok(rule, key, fmt.Sprintf("%s; needs len(%s) >= %d: %s", how, v.Name(), need, g))
+					} else {
+						r.bad(rule, key, fmt.Sprintf("%s needs len(%s) >= %d, but no dominating guard establishes it: an empty or short %s panics here", types.ExprString(n.(ast.Expr)), v.Name(), need, v.Name()), c.pos(n.Pos()))
+					}
+				}
+			}
+			return true
+		})
+	}
+}
+
+// indexNeed: the minimal len(v) that makes index expression ix valid; need 0
+// when it is valid for every length.
+func (c *Ctx) indexNeed(body ast.Node, pm map[ast.Node]ast.Node, at ast.Node, v *types.Var, ix ast.Expr, isSlice bool) (need int64, how string, ok bool) {
+	ix = c.stripConv(ix)
+	extra := int64(1)
+	if isSlice {
+		extra = 0
+	}
+	if k, isC := c.intConst(ix); isC {
+		if k < 0 {
+			return 0, "", false
+		}
+		return k + extra, fmt.Sprintf("constant index %d", k), true
+	}
+	isLenV := func(e ast.Expr) bool {
+		call, ok := stripParens(e).(*ast.CallExpr)
+		return ok && c.calleeName(call) == "len" && len(call.Args) == 1 && c.isObj(call.Args[0], v)
+	}
+	if isLenV(ix) && isSlice {
+		return 0, "len(" + v.Name() + ")", true
+	}
+	if be, ok := ix.(*ast.BinaryExpr); ok && be.Op == token.SUB && isLenV(be.X) {
+		if k, isC := c.intConst(be.Y); isC && k >= extra {
+			return k, fmt.Sprintf("len(%s)-%d", v.Name(), k), true
+		}
+	}
+	// induction variable of an enclosing loop over v
+	if id, ok := ix.(*ast.Ident); ok {
+		iv := c.objOf(id)
+		for p := pm[at]; p != nil; p = pm[p] {
+			switch l := p.(type) {
+			case *ast.RangeStmt:
+				if kid, ok := l.Key.(*ast.Ident); ok && c.objOf(kid) == iv && c.isObj(l.X, v) && !c.assignedIn(l.Body, iv) && !c.assignedIn(l.Body, v) {
+					return 0, "range index over " + v.Name(), true
+				}
+			case *ast.ForStmt:
+				if cond, ok := stripParens(l.Cond).(*ast.BinaryExpr); ok && cond.Op == token.LSS && c.isObj(cond.X, iv) && isLenV(cond.Y) && !c.assignedIn(l.Body, iv) && !c.assignedIn(l.Body, v) {
+					if c.startsNonNegative(l.Init, iv) {
+						return 0, "loop index below len(" + v.Name() + ")", true
+					}
+				}
+			case *ast.FuncLit:
+				return 0, "", false
+			}
+		}
+	}
+	return 0, "", false
+}
+
+func (c *Ctx) startsNonNegative(init ast.Stmt, iv types.Object) bool {
+	as, ok := init.(*ast.AssignStmt)
+	if !ok || len(as.Lhs) != 1 || len(as.Rhs) != 1 || !c.isObj(as.Lhs[0], iv) {
+		return false
+	}
+	k, isC := c.intConst(as.Rhs[0])
+	return isC && k >= 0
+}
+
+// assignedIn: obj is assigned (=, op=, ++, --, := shadowing excluded) inside n.
+func (c *Ctx) assignedIn(n ast.Node, obj types.Object) bool {
+	found := false
+	ast.Inspect(n, func(x ast.Node) bool {
+		switch s := x.(type) {
+		case *ast.AssignStmt:
+			for _, l := range s.Lhs {
+				if id, ok := l.(*ast.Ident); ok && c.infoFor(id).Uses[id] == obj {
+					found = true
+				}
+			}
+		case *ast.IncDecStmt:
+			if c.isObj(s.X, obj) {
+				found = true
+			}
+		case *ast.UnaryExpr:
+			if s.Op == token.AND && c.isObj(s.X, obj) {
+				found = true
+			}
+		}
+		return !found
+	})
+	return found
+}
+
+// lenGuard: a dominating fact bounds len(v) from below by need, and v is not
+// reassigned between that guard and the use.
+func (c *Ctx) lenGuard(body ast.Node, at ast.Node, v *types.Var, need int64) string {
+	for _, f := range splitFacts(c.factsAt(body, at)) {
+		b, ok := c.boundOf(condAtom{E: stripParens(f.Cond), Pos: f.Pos, Init: f.Init})
+		if !ok {
+			continue
+		}
+		call, isCall := stripParens(b.X).(*ast.CallExpr)
+		if !isCall || c.calleeName(call) != "len" || len(call.Args) != 1 || !c.isObj(call.Args[0], v) {
+			continue
+		}
+		lo := int64(0)
+		if b.Lo != nil {
+			lo = *b.Lo
+		}
+		if b.Ne != nil && *b.Ne == 0 && lo < 1 {
+			lo = 1
+		}
+		if lo < need {
+			continue
+		}
+		// no reassignment of v between the guard and the use
+		clean := true
+		ast.Inspect(body, func(x ast.Node) bool {
+			if as, ok := x.(*ast.AssignStmt); ok && as.Pos() > f.Cond.Pos() && as.Pos() < at.Pos() {
+				for _, l := range as.Lhs {
+					if c.isObj(l, v) {
+						clean = false
+					}
+				}
+			}
+			return clean
+		})
+		if clean {
+			return fmt.Sprintf("guard %s (%v) at %s", types.ExprString(f.Cond), f.Pos, c.pos(f.Cond.Pos()))
+		}
+	}
+	return ""
+}
+
+// isParam: v is a parameter (or named result) of the function declaration or literal enclosing `at`.
+func (c *Ctx) isParam(body ast.Node, pm map[ast.Node]ast.Node, at ast.Node, v *types.Var) bool {
+	inFields := func(ft *ast.FuncType) bool {
+		for _, fl := range []*ast.FieldList{ft.Params, ft.Results} {
+			if fl == nil {
+				continue
+			}
+			for _, f := range fl.List {
+				for _, n := range f.Names {
+					if c.objOf(n) == types.Object(v) {
+						return true
+					}
+				}
+			}
+		}
+		return false
+	}
+	for p := pm[at]; p != nil; p = pm[p] {
+		if fl, ok := p.(*ast.FuncLit); ok && inFields(fl.Type) {
+			return true
+		}
+	}
+	if fd, ok := pm[body].(*ast.FuncDecl); ok {
+		return inFields(fd.Type)
+	}
+	// body is the root of the parent map: look the declaration up by position
+	for _, fd := range c.funcDecls {
+		if fd.Body == body {
+			return inFields(fd.Type)
+		}
+	}
+	return false
+}
+
+// ruleIntDivGuard: integer division and remainder by a non-constant divisor
+// must be dominated by a test that the divisor is not zero.
+func ruleIntDivGuard(c *Ctx, r *Report, rule string, reach map[*ssa.Function]bool, delegated map[string]string) {
+	r.rule(rule, 1, "every integer / and % whose divisor is not a non-zero constant is dominated by a guard that excludes a zero divisor (in the same function), or is one of the listed sites whose guard lives in the caller and is checked there")
+	seenBody := map[ast.Node]bool{}
+	scanned, sites := 0, 0
+	defer func() {
+		r.ok(rule, "scan", fmt.Sprintf("%d reachable function bodies scanned, %d integer division sites with a non-constant divisor", scanned, sites))
+	}()
+	for _, f := range sortedReach(reach) {
+		body := c.bodyOf(f)
+		if body == nil || seenBody[body] {
+			continue
+		}
+		seenBody[body] = true
+		scanned++
+		fname := ssaFuncName(f)
+		n := 0
+		ast.Inspect(body, func(x ast.Node) bool {
+			if _, isLit := x.(*ast.FuncLit); isLit && x != ast.Node(f.Syntax()) {
+				return false // visited as its own function
+			}
+			var div ast.Expr
+			switch e := x.(type) {
+			case *ast.BinaryExpr:
+				if e.Op == token.QUO || e.Op == token.REM {
+					div = e.Y
+				}
+			case *ast.AssignStmt:
+				if (e.Tok == token.QUO_ASSIGN || e.Tok == token.REM_ASSIGN) && len(e.Rhs) == 1 {
+					div = e.Rhs[0]
+				}
+			}
+			if div == nil {
+				return true
+			}
+			t := c.typeOf(div)
+			if t == nil {
+				return true
+			}
+			if tp, ok := t.(*types.TypeParam); ok {
+				// generic arithmetic: integer instantiations exist when the constraint admits an integer type
+				if !constraintHasInt(tp) {
+					return true
+				}
+			} else if b, ok := t.Underlying().(*types.Basic); !ok || b.Info()&types.IsInteger == 0 {
+				return true
+			}
+			if v := c.constOf(div); v != nil {
+				if k, ok := constant.Int64Val(v); !ok || k != 0 {
+					return true
+				}
+			}
+			n++
+			sites++
+			key := fmt.Sprintf("%s/div#%d", fname, n)
+			if why, ok := delegated[fname]; ok {
+				r.ok(rule, key, "guard in the caller: "+why)
+				return true
+			}
+			guarded := ""
+			for _, fct := range splitFacts(c.factsAt(body, x)) {
+				b, ok := c.boundOf(condAtom{E: stripParens(fct.Cond), Pos: fct.Pos, Init: fct.Init})
+				if !ok || !c.sameExpr(b.X, div) {
+					continue
+				}
+				if (b.Ne != nil && *b.Ne == 0) || (b.Lo != nil && *b.Lo >= 1) || (b.Hi != nil && *b.Hi <= -1) {
+					guarded = types.ExprString(fct.Cond)
+				}
+			}
+			if guarded != "" {
+				r.ok(rule, key, fmt.Sprintf("divisor %s: guard %s", types.ExprString(div), guarded))
+			} else {
+				r.bad(rule, key, fmt.Sprintf("%s divides by %s with no dominating test that it is not zero: integer division by zero panics", fname, types.ExprString(div)), c.pos(x.Pos()))
+			}
+			return true
+		})
+	}
+}
+
+func constraintHasInt(tp *types.TypeParam) bool {
+	iface, ok := tp.Constraint().Underlying().(*types.Interface)
+	if !ok {
+		return true
+	}
+	found := false
+	for i := 0; i < iface.NumEmbeddeds(); i++ {
+		if u, ok := iface.EmbeddedType(i).(*types.Union); ok {
+			for j := 0; j < u.Len(); j++ {
+				if b, ok := u.Term(j).Type().Underlying().(*types.Basic); ok && b.Info()&types.IsInteger != 0 {
+					found = true
+				}
+			}
+		} else if b, ok := iface.EmbeddedType(i).Underlying().(*types.Basic); ok && b.Info()&types.IsInteger != 0 {
+			found = true
+		}
+	}
+	return found
+}
+
+// divDelegated: division sites whose zero test lives in the caller.
+var divDelegated = map[string]string{
+	"binopNumeric": "the VM's DIV arm tests the divisor for int zero before calling it (rule int-div)",
 }
